@@ -647,9 +647,10 @@ fn gen_case(rng: &mut Rng, cfg: &Cfg) -> Case {
     }
     let mut module_faults = vec![];
     if rng.below(100) < p.module_faults {
-        let kinds = ["custom", "ibc", "gov", "stargate", "any", "bank", "staking", "distribution", "custom.query", "ibc.query", "stargate.query", "grpc.query"];
+        let kinds = ["custom", "ibc", "gov", "stargate", "any", "bank", "staking", "distribution", "custom.query", "ibc.query", "stargate.query", "grpc.query", "wasm", "wasm", "wasm.query", "wasm.sudo"];
+        let _ = kinds.len();
         for _ in 0..1 + rng.below(3) {
-            module_faults.push((rng.pick(&kinds).to_string(), rng.below(6) as u32));
+            module_faults.push((rng.pick(&kinds).to_string(), rng.below(12) as u32));
         }
     }
     let unbonding_secs = *rng.pick(&[1u64, 60, 60, 3600]);
